@@ -138,7 +138,7 @@ def find_fn(text, mask, name, impl=None, within=None):
     raise LostAnchor("fn %s%s not found" % ((impl + "::") if impl else "", name))
 
 
-def find_arm(text, mask, lo, hi, pattern):
+def find_arm(text, mask, lo, hi, pattern, nth=1):
     """Within text[lo:hi], find `<pattern> ... =>` and return (start, end) of the arm's body:
     a block's inner range, or an expression up to the terminating comma."""
     for m in re.finditer(re.escape(pattern) + r"(?![\w:])", text[lo:hi]):
@@ -168,6 +168,9 @@ def find_arm(text, mask, lo, hi, pattern):
                     break
             j += 1
         if not ok:
+            continue
+        nth -= 1
+        if nth > 0:
             continue
         # the pattern text between s and j must not contain an earlier arm (i.e. no '=>' seen) - guaranteed
         k = j + 2
@@ -412,7 +415,13 @@ def rule_R4s(body, arg=None):
     return re.subn(r"[\w\.]+\.shrink_to_fit\(\);", "", body)
 
 
-RULES = {"R4s": rule_R4s, "R13": rule_R13, "R4d": rule_R4d, "R12": rule_R12, "R1p": rule_R1p, "R6n": rule_R6n, "R10": rule_R10, "R11": rule_R11, "R1": rule_R1, "R2": rule_R2, "R3": rule_R3, "R4": rule_R4, "R6": rule_R6, "R7": rule_R7, "R8": rule_SUB}
+def rule_R14(body, arg):
+    """`break 'label;` where the labeled block is the ENTIRE arm (nothing follows it in the arm, and the function
+    ends with Ok(()) after the match): equivalent to leaving the arm -> `return Ok(());` (Verus has no labeled blocks)"""
+    return re.subn(r"break\s+'%s\s*;" % re.escape(arg.strip()), "return Ok(());", body)
+
+
+RULES = {"R14": rule_R14, "R4s": rule_R4s, "R13": rule_R13, "R4d": rule_R4d, "R12": rule_R12, "R1p": rule_R1p, "R6n": rule_R6n, "R10": rule_R10, "R11": rule_R11, "R1": rule_R1, "R2": rule_R2, "R3": rule_R3, "R4": rule_R4, "R6": rule_R6, "R7": rule_R7, "R8": rule_SUB}
 
 
 def apply_rules(body, rules, counts):
@@ -533,7 +542,7 @@ def build_unit(template_path, src_dir, verus_dir):
                 where = "%s:%s prefix up to `%s` (lines %d-%d)" % (kv["file"], kv["fn"], kv["until"], text.count("\n", 0, bo) + 1, text.count("\n", 0, cut) + 1)
             elif kind == "ARM":
                 fs, bo, bc = find_fn(text, mask, kv["fn"], kv.get("impl"))
-                k, a, b = find_arm(text, mask, bo, bc, kv["arm"])
+                k, a, b = find_arm(text, mask, bo, bc, kv["arm"], int(kv.get("nth", "1")))
                 body = text[a:b]
                 if k == "expr":
                     body = body.strip()
